@@ -118,16 +118,18 @@ def build_one(cd, idx, seed):
     return dict(proto="quic", flow=fl, flow2=fl2, frames=frames, keylog=c.keylog, truth=[(g.d, g.stream) for g in c.dgrams if g.stream], nmig=4)
 
 
-def project(out, conn):
+def project(out, conn, opts=()):
+    from harness.tlsrun import out_port
     o = Observation(out)
+    sp = out_port(conn["flow"].server.port, list(opts))
     if conn["proto"] == "tls":
         f = conn["flow"]
-        cv = o.tcp_conv(f.client.ip, f.client.port, f.server.ip, f.server.port)
+        cv = o.tcp_conv(f.client.ip, f.client.port, f.server.ip, sp)
         if cv is None:
             return None, o.problems
         return (cv["streams"]["c"], cv["streams"]["s"], [(d, p) for d, _t, p, _n in cv["segs"]]), o.problems
     f = conn["flow"]
-    return [(d, pl) for d, ts, pl, _a, _b in o.udp_dgrams(f.client.ip, f.client.port, f.server.ip, f.server.port)], o.problems
+    return [(d, pl) for d, ts, pl, _a, _b in o.udp_dgrams(f.client.ip, f.client.port, f.server.ip, sp)], o.problems
 
 
 def chunk(n, m):
@@ -183,6 +185,7 @@ def _one(job):
     keylog = [l for c in conns for l in c["keylog"]]
     rngk.shuffle(keylog)
     ts0 = 1_700_000_000_000_000
+    opts = [[], [], [], ["-m", "443:9443"], ["-m"]][seed % 5]       # a port mapping is applied per connection, whatever the others were
     if seed % 4 == 1:
         # the secrets travel in the capture: one decryption secrets block per connection, each standing right before the first packet of its
         # connection (so later blocks follow other connections' handshakes); no key log file
@@ -191,18 +194,18 @@ def _one(job):
             firsts.setdefault(ci, i)
         dsbs = [(firsts.get(ci, 0), ("\n".join(c["keylog"]) + "\n").encode()) for ci, c in enumerate(conns)]
         data = pcapng_bytes([(ts0 + 1013 * i, fr) for i, (_ci, fr) in enumerate(mf)], dsbs=dsbs)
-        res = runner.run_inproc(data, None, trace=True)
+        res = runner.run_inproc(data, None, opts=opts, trace=True)
     else:
         data = pcapng_bytes([(ts0 + 1013 * i, fr) for i, (_ci, fr) in enumerate(mf)])
-        res = runner.run_inproc(data, "\n".join(keylog) + "\n", trace=True)
+        res = runner.run_inproc(data, "\n".join(keylog) + "\n", opts=opts, trace=True)
     bad = []
     if res.crashed or res.out is None:
         bad.append("merged capture: run aborted: " + (res.exc or "no output").strip().splitlines()[-1])
         return dict(name=name, seed=seed, order=order, packetwise=packetwise, bad=bad, events=[], owner=[])
     for i, c in enumerate(conns):
-        solo = runner.run_inproc(pcapng_bytes([(ts0 + 1013 * k, fr) for k, fr in enumerate(c["frames"])]), "\n".join(keylog) + "\n")
-        ps, _ = project(solo.out, c) if solo.out else (None, [])
-        pm, probs = project(res.out, c)
+        solo = runner.run_inproc(pcapng_bytes([(ts0 + 1013 * k, fr) for k, fr in enumerate(c["frames"])]), "\n".join(keylog) + "\n", opts=opts)
+        ps, _ = project(solo.out, c, opts) if solo.out else (None, [])
+        pm, probs = project(res.out, c, opts)
         truth_ok = True
         if c.get("partial"):
             pass                        # an incomplete connection is judged against its solo export only (what it may export is C03 / C08's subject)
